@@ -4,6 +4,7 @@
  * ops
  *   fmt <kind> <v> <s> [<max> [<strict>]]   -> r=<0|-1> b=<hex of the whole buffer, untouched bytes are '#'>
  *   atol <kind> <hex>                       -> v=<int64>
+ *   paxrec <key hex> <value hex>            -> b=<hex of the pax record `len key=value\\n`>
  *   open f=<format> [bpb=<n>] [bilb=<n>] [filter=<name>] [opt=<options>]
  *   ent k=v ...                             -> h=<st> w=<n>:<st> f=<st> len=<archive bytes so far, bpb=0 only>
  *   close | abort                           -> c=<st> len= hash= [hex=] fmt=<detected code> n=<entries read> end=<st>
@@ -64,6 +65,17 @@ static void op_atol(char **w)
 	else { free(b); printf("bad-op\n"); return; }
 	printf("v=%lld\n", (long long)v);
 	free(b);
+}
+
+/* paxrec <key hex> <value hex>  ->  b=<hex of the record> */
+static void op_paxrec(char **w)
+{
+	size_t kn, vn; unsigned char *k = vh_unhex(w[1], &kn), *v = vh_unhex(w[2], &vn);
+	char *key = malloc(kn + 1); memcpy(key, k, kn); key[kn] = 0;
+	size_t cap = kn + vn + 64; char *out = malloc(cap);
+	size_t n = vhx_pax_record(key, (const char *)v, vn, out, cap);
+	printf("b="); vh_puthex(out, n); putchar('\n');
+	free(out); free(key); free(k); free(v);
 }
 
 /* ---- write side -------------------------------------------------------- */
@@ -346,6 +358,7 @@ static void c_op(char *line)
 	if (n == 0) { printf("bad-op\n"); return; }
 	if (!strcmp(w[0], "fmt") && n >= 4) op_fmt(w, n);
 	else if (!strcmp(w[0], "atol") && n == 3) op_atol(w);
+	else if (!strcmp(w[0], "paxrec") && n == 3) op_paxrec(w);
 	else if (!strcmp(w[0], "open")) op_open(w, n);
 	else if (!strcmp(w[0], "ent")) op_ent(w, n);
 	else if (!strcmp(w[0], "close")) op_close(0);
